@@ -33,6 +33,8 @@ type Check struct {
 	Rule   string
 	Run    func(c *Ctx)
 	Oracle func(res *RunResult) []Violation
+	// Exec runs a plan (default: RunPlan). Differential checks run every world of a world-set plan.
+	Exec func(p *plan.Plan) (*RunResult, error)
 	// Assumptions recorded in the evidence.
 	Assumptions []string
 	Components  map[string]string
@@ -41,6 +43,13 @@ type Check struct {
 var checks = map[string]*Check{}
 
 func register(c *Check) { checks[c.ID] = c }
+
+func (c *Check) exec(p *plan.Plan) (*RunResult, error) {
+	if c.Exec != nil {
+		return c.Exec(p)
+	}
+	return RunPlan(p, genericBetween)
+}
 
 // Ctx carries one check invocation.
 type Ctx struct {
@@ -120,7 +129,11 @@ func (c *Ctx) Account(res *RunResult, key string, nontrivial bool, sample any) {
 	if sample != nil && len(c.samples) < 3 {
 		c.samples = append(c.samples, sample)
 	}
-	for _, ir := range res.Incs {
+	allIncs := append([]*IncResult(nil), res.Incs...)
+	for _, s := range res.Sub {
+		allIncs = append(allIncs, s.Incs...)
+	}
+	for _, ir := range allIncs {
 		end := ir.End()
 		if end == nil {
 			continue
@@ -136,7 +149,7 @@ func (c *Ctx) Account(res *RunResult, key string, nontrivial bool, sample any) {
 			c.fingerprints[fp] = true
 		}
 	}
-	for _, ir := range res.Incs {
+	for _, ir := range allIncs {
 		if len(ir.Entries) > 0 {
 			first, last := ir.Entries[0], ir.Entries[len(ir.Entries)-1]
 			if last.SimMs > first.SimMs {
@@ -233,7 +246,7 @@ func (c *Ctx) Explore(n int, gen func(r *rand.Rand, i int) *plan.Plan, account f
 		if p.Seed == 0 {
 			p.Seed = c.Seed*1_000_003 + uint64(i)
 		}
-		res, err := RunPlan(p, genericBetween)
+		res, err := c.Check.exec(p)
 		if err != nil {
 			c.Harness(fmt.Sprintf("run %d: %v", i, err))
 			return
@@ -252,6 +265,11 @@ func (c *Ctx) Explore(n int, gen func(r *rand.Rand, i int) *plan.Plan, account f
 
 // harnessTrouble: failures that are the harness's, never a verdict.
 func harnessTrouble(res *RunResult) string {
+	for _, s := range res.Sub {
+		if h := harnessTrouble(s); h != "" {
+			return h
+		}
+	}
 	for i, ir := range res.Incs {
 		switch ir.Abnormal() {
 		case "wall-timeout":
@@ -504,7 +522,7 @@ func doReplay(ck *Check, path, root string) int {
 	var sigs [2][]string
 	var fps [2]string
 	for k := 0; k < 2; k++ {
-		res, err := RunPlan(rf.Plan, genericBetween)
+		res, err := ck.exec(rf.Plan)
 		if err != nil {
 			fmt.Fprintf(os.Stderr, "replay: %v\n", err)
 			return 2
@@ -552,6 +570,9 @@ func doReplay(ck *Check, path, root string) int {
 
 func fingerprintOf(res *RunResult) string {
 	var parts []string
+	for _, s := range res.Sub {
+		parts = append(parts, fingerprintOf(s))
+	}
 	for _, ir := range res.Incs {
 		end := ir.End()
 		var fp string
